@@ -40,7 +40,7 @@ CHECKS = {
         "group query of every function not excluded from initialisation, excluded functions are never queried, the submissions are one GET per plan entry followed by SYS:VERSION last; "
         "for EVERY message history the event is set exactly by a SYS:VERSION message, every message before it has been completely processed (so C03 applies: readable), no notification "
         "before initialisation; the time-out is base + per_cmd * (#queries) from the regenerated constants. The real SubunitBase.initialize of all 23 classes runs on a real connection under "
-        "the deterministic harness with devices answering all/some/none, late or missing sync replies, floods, stray VERSION lines and steady unrelated traffic outlasting every time-out (a failing call must take exactly as long with it as without); submissions compared with the model, barrier / time-out "
+        "the deterministic harness with devices answering all/some/none, late or missing sync replies, floods, stray VERSION lines and steady unrelated traffic outlasting every time-out (a failing call must take exactly as long with it as without), a reader stalled in the middle of a reply line followed by one burst of several hundred bytes (what must be readable at return is taken from the bytes the device emitted); submissions compared with the model, barrier / time-out "
         "/ callback gating judged by a monitor.",
         note=BASE_NOTE + HARNESS_NOTE + " PARTIAL: the barrier is proved for the reader's sequential processing order; that the caller wakes only after the reader set the event is threading.Event's contract (harness).",
         technique="Coq proof (induction over histories, reflection over regenerated tables) + differential correspondence via deterministic simulation",
@@ -76,7 +76,7 @@ CHECKS = {
     "C04": dict(
         text="Coq theorems (decode total / round trip / injective / text identity, generic in the enum tables) instantiated by reflection "
         "(vm_compute) over the enumerations, function descriptors and recorded triples regenerated from /repo on every run; "
-        "the live Enum classes and converters are run exhaustively (all members, non-member strings, all recorded triples) and compared with the model.",
+        "the live Enum classes and converters are run exhaustively (all members, non-member strings, all recorded triples) and compared with the model. In addition sessions with two receivers in one process reporting different values of the same enumerated function at the same instant, with every source line of ynca/converters.py a scheduling point (the two reader threads interleave statement by statement inside the shared converter); each object must read the decoding of what its own device said.",
         note=BASE_NOTE + "Modelled, not verified: Python's Enum lookup/_missing_ protocol; float()/int() outside the plain decimal grammar are oracles.",
         technique="Coq proof by reflection over generated tables + exhaustive differential correspondence",
         design_ref="6 (C04)",
@@ -86,7 +86,7 @@ CHECKS = {
         "number of decimals; k*step is nearest for EVERY integer j; sign/format shape), reflection over the regenerated descriptors (every stepped "
         "function has admissible parameters, the prescribed (decimals, step) pair and MAXVOL alone the 16.5 literal), and a theorem that a numeric "
         "assignment to any stepped attribute yields exactly one PUT carrying that text. The real helper and every stepped attribute are swept over "
-        "grid points, tie points and their +-3 ulp neighbours and compared with the model (vm_compute); also after the device has reported values for all stepped functions of the object (the receiver's state plays no part).",
+        "grid points, tie points and their +-3 ulp neighbours and compared with the model (vm_compute); also after the device has reported values for all stepped functions of the object (the receiver's state plays no part), and on threads whose `decimal` context (rounding mode, precision) has been changed (the interpreter's ambient state plays no part).",
         note=BASE_NOTE + "Modelled, not verified: CPython Fraction arithmetic, round(), str(int); the translator's AST reading of the to_str lambdas.",
         technique="Coq proof (lia/nia over Z) + reflection over generated descriptors + differential sweep",
         design_ref="6 (C11)",
@@ -104,7 +104,7 @@ CHECKS = {
         text="Coq theorem by induction over histories: for every generated subunit class, every oracle and EVERY message history, a read returns the decoding "
         "of the most recent decodable value reported for exactly that subunit id and function name (else None); non-interference lemmas; totality of the handler; "
         "reflection over the regenerated tables (function names unique per class, ids unique). Real instances of all 23 classes are driven through a real "
-        "YncaConnection with generated histories and compared with an independent reference after messages and with the model at the end; in addition the device sends such histories as bytes over a live connection under the deterministic harness (reader thread, framing, keep-alive handling) and the attributes are read at the end.",
+        "YncaConnection with generated histories and compared with an independent reference after messages and with the model at the end; in addition the device sends such histories as bytes over a live connection under the deterministic harness (reader thread, framing, keep-alive handling) and the attributes are read at the end. The reference decodes from what the function's converter declares (kind, enum class, order of alternatives), not by calling the converter.",
         note=BASE_NOTE + "Modelled, not verified: dict/descriptor protocol of CPython; 'reading transmits nothing' holds by construction in the model and is checked on the implementation by counting transmissions.",
         technique="Coq proof by induction over message histories + reflection + differential correspondence",
         design_ref="6 (C03)",
@@ -123,7 +123,7 @@ CHECKS = {
         "one PUT with the protocol name and canonical text; read-only/write-only/out-of-domain values raise with nothing transmitted (a structural `rejects` predicate "
         "proved sufficient for every converter tree); never more than one PUT; relative volume text is Up/Down or Up N dB/Down N dB with N in {1,2,5} for EVERY int, "
         "float or bool step; reflection over all generated methods. Every attribute x value kind and every method x argument kind is run on real instances (caches "
-        "pre-filled, reads compared before/after) and compared with the model.",
+        "pre-filled, reads compared before/after) and compared with the model; the documented ends of the memory-slot range (1 and 40) included.",
         note=BASE_NOTE + "Modelled, not verified: descriptor protocol, str()/format() of int/bool/integral float, len(), `in`; Python arguments are a finite taxonomy (pyval); kinds the statement leaves open are reported as such.",
         technique="Coq proof (structural induction over converter trees) + reflection over generated descriptors/methods + exhaustive differential correspondence",
         design_ref="6 (C05)",
@@ -141,7 +141,7 @@ CHECKS = {
     "C08": dict(
         text="Coq theorem over the connection LTS: for EVERY action list, with unrestricted time steps (arbitrary scheduling delays), consecutive writes are at least "
         "p_spacing apart and only the sender's write transition extends the wire; reflection: the regenerated constant is >= 100 ms. Real threads run under the deterministic "
-        "harness (bursts, several callers, idle gaps, injected stalls), traces replayed in the model, minimum gap monitored.",
+        "harness (bursts, several callers, idle gaps, injected stalls), traces replayed in the model, minimum gap monitored; plus sessions in which one write fails part-way while further commands are queued (the next transmission still starts at least 100 ms later).",
         note=BASE_NOTE + "Modelled, not verified: pyserial ReaderThread/LineReader, queue.Queue, threading.Event/Lock/Thread.join, time.sleep and the port are replaced by the harness's simulated primitives (their contracts are the model's assumptions); real-clock behaviour and OS scheduling latency are outside every theorem.",
         technique="Coq proof by invariant over an LTS (all schedules, unrestricted delays) + trace-inclusion correspondence via deterministic simulation",
         design_ref="6 (C08)",
@@ -168,7 +168,7 @@ CHECKS = {
         text="Coq theorems for EVERY N and every action list: the buffer is lastn N of the complete log (so <= N entries, empty for N = 0; deque model ring_add proved equal to "
         "bounding the appended log); Send entries = written texts in order plus at most one not yet written; Received entries = received lines in arrival order; received lines = "
         "framing of the emitted bytes; when the device answers write w its Send entry is already logged. Simulated sessions with N in {0..10000}, log read concurrently; traces "
-        "replayed; monitor compares with the port's own record.",
+        "replayed; monitor compares with the port's own record. In addition sessions in which every source line of ynca/helpers.py (the ring buffer) is a scheduling point: the sender and the reader log at the same instant and interleave statement by statement inside the buffer; the log must stay bounded by N.",
         note=BASE_NOTE + "Modelled, not verified: pyserial ReaderThread/LineReader, queue.Queue, threading.Event/Lock/Thread.join, time.sleep and the port are replaced by the harness's simulated primitives (their contracts are the model's assumptions); real-clock behaviour and OS scheduling latency are outside every theorem.",
         technique="Coq proof by invariants over an LTS (all schedules) + trace-inclusion correspondence via deterministic simulation",
         design_ref="6 (C20)",
@@ -178,7 +178,7 @@ CHECKS = {
         "only while initialised, cache updated first). Concurrent half: Coq LTS of one delivery over a snapshot with a membership test per callback under ARBITRARY interleaved "
         "register/unregister/clear actions; pointwise invariants give: complete delivery => every callback registered at the snapshot and not unregistered since was invoked exactly once, "
         "nothing else, nobody twice; mutations are always enabled; the loop always progresses. Real subunits/connection run under the deterministic harness with re-entrant and "
-        "cross-thread mutation programs; each callback set's event trace is replayed in the model; monitor judges every delivery. An API-level monitor (built only from the register/unregister/close calls made and the invocations seen, with plain functions and bound methods as callbacks) judges every delivery independently of how the library stores callbacks.",
+        "cross-thread mutation programs; each callback set's event trace is replayed in the model; monitor judges every delivery. An API-level monitor (built only from the register/unregister/close calls made and the invocations seen, with plain functions and bound methods as callbacks) judges every delivery independently of how the library stores callbacks. A systematic pass reports EVERY declared function of EVERY class (readable or write-only) once to an initialised instance with two callbacks; the expected decoded value is computed from what the converter declares (kind, enum class, order of alternatives), not by calling it.",
         note=BASE_NOTE + "Modelled, not verified: pyserial ReaderThread/LineReader, queue.Queue, threading.Event/Lock/Thread.join, time.sleep and the port are replaced by the harness's simulated primitives (their contracts are the model's assumptions); real-clock behaviour and OS scheduling latency / thread teardown are outside every theorem.",
         technique="Coq proof by induction over histories + pointwise invariants over an LTS (all interleavings) + trace-inclusion correspondence via deterministic simulation",
         design_ref="6 (C09)",
@@ -188,7 +188,7 @@ CHECKS = {
         "callback invoked at most once and only at the end of connection_lost (exactly once when still set: the reader's steps are forced), connected False from the first step of "
         "connection_lost, no delivery afterwards, the lost path never blocks without a finite deadline; plus, on the connection LTS, the multiset theorem "
         "#written(x) + #drained(x) <= #submitted(x) (discarded, not written). Sessions with a transport fault at random points run under the deterministic harness, are replayed in both "
-        "machines and judged by a monitor (callback count, connected flag, writes after the drain, thread termination, later API calls). Progress measure: in every run the reader takes at most ten progress steps of its own from its loop to termination and nobody moves it backwards (LifeMore.v). The connection machine has the connection-lost flag: the sender drops what it dequeues once the flag is set and stops.",
+        "machines and judged by a monitor (callback count, connected flag, writes after the drain, thread termination, later API calls). Progress measure: in every run the reader takes at most ten progress steps of its own from its loop to termination and nobody moves it backwards (LifeMore.v). The connection machine has the connection-lost flag: the sender drops what it dequeues once the flag is set and stops. API-level sessions: the link drops with the k-th byte while YncaApi.initialize() is waiting for replies; the application's callback must be invoked exactly once.",
         note=BASE_NOTE + "Modelled, not verified: pyserial ReaderThread/LineReader, queue.Queue, threading.Event/Lock/Thread.join, time.sleep and the port are replaced by the harness's simulated primitives (their contracts are the model's assumptions); real-clock behaviour and OS scheduling latency / thread teardown are outside every theorem." + " PARTIAL: thread termination is proved as bounded blocking of the lost path and observed on every simulated run, not proved as OS-level liveness.",
         technique="Coq proof by invariants over LTSs (all fault positions and interleavings) + trace-inclusion correspondence via deterministic simulation with fault injection",
         design_ref="6 (C15)",
@@ -197,7 +197,7 @@ CHECKS = {
         text="Coq LTS of the life cycle with any number of concurrent/repeated close() calls on other threads and close() on the reader thread itself; invariants for EVERY action list: "
         "once a close() has started (_closed set) the user's disconnect callback is never invoked again; a cleared callback stays cleared and is never invoked after a later read; once a "
         "close() has returned the port is closed, the reader is told to stop, and no sender write can succeed; close() can start in any state and its join has a finite deadline. "
-        "Sessions with close() from caller threads, the main thread, inside message/disconnect callbacks, during connect(), repeated and concurrent, are simulated, replayed and monitored. Progress measure for close(): moved only by its own steps, each strictly forward (at most seven after it started). Scenarios include close() after the link was already lost, close() while YncaApi.initialize() is running, and close() inside a message callback followed by connect() on the same object (in the callback or from another thread) before the callback has returned. For that case a second model (Model/Reconnect.v: the object's _closed flag shared by two sessions, the old protocol's callback, the old reader winding down at any point) with flags read off the AST of close()/connect(): because close() clears the old protocol's callback, no order of close / connect / old-reader steps invokes the user's callback; the flag alone suffices only without a reconnect, and is refuted with one (witness history); the recorded two-session traces are replayed in that model.",
+        "Sessions with close() from caller threads, the main thread, inside message/disconnect callbacks, during connect(), repeated and concurrent, are simulated, replayed and monitored. Progress measure for close(): moved only by its own steps, each strictly forward (at most seven after it started). Scenarios include close() after the link was already lost, close() while YncaApi.initialize() is running, and close() inside a message callback followed by connect() on the same object (in the callback or from another thread) before the callback has returned; and a connection with callbacks closed, then ANOTHER connection of the process opened and talking (none of the closed connection's callbacks may start). For that case a second model (Model/Reconnect.v: the object's _closed flag shared by two sessions, the old protocol's callback, the old reader winding down at any point) with flags read off the AST of close()/connect(): because close() clears the old protocol's callback, no order of close / connect / old-reader steps invokes the user's callback; the flag alone suffices only without a reconnect, and is refuted with one (witness history); the recorded two-session traces are replayed in that model.",
         note=BASE_NOTE + "Modelled, not verified: pyserial ReaderThread/LineReader, queue.Queue, threading.Event/Lock/Thread.join, time.sleep and the port are replaced by the harness's simulated primitives (their contracts are the model's assumptions); real-clock behaviour and OS scheduling latency / thread teardown are outside every theorem." + " PARTIAL: 'returns without raising' is absence of a raising transition in the transcribed close(), tied to the code by replay (a raise is an event the model refuses).",
         technique="Coq proof by invariants over an LTS (all interleavings of closers, reader and sender) + trace-inclusion correspondence via deterministic simulation",
         design_ref="6 (C16)",
